@@ -207,7 +207,7 @@ pub fn run(tier: Tier, replay: Option<String>) -> i32 {
         gen.total,
         "every (kind, baseline B0|B1, field, value of the field's specification domain) x {compressed, uncompressed}",
         move |i, acc| check_case(&g2, i, acc, "spec-conformance"),
-    ), super::c01::mso_name_text_site("C02"), super::c01::container_ops_site("C02")];
+    ), super::c01::mso_name_text_site("C02"), super::c01::container_ops_site("C02"), super::c03::after_refusal_spec_site("C02")];
     let total = gen.total;
     super::run_e1(
         "C02",
